@@ -356,7 +356,118 @@ FID = Id('get_fidelity.numpy_branch', ['numqi.utils:get_fidelity'],
          call=_fid_call, post=_fid_post, sample=_fid_sample, label=lambda d: f'd={d}', modules=[_ut])
 FID.comparable = lambda r: []
 
-CONTRACTS = {c.name: c for c in [EQUIV, CONV, BLOCH, NOISE, TOKRAUS, FID]}
+# ---- entropies / trace distance (numpy branch), proved modulo the ASSUMED contracts of eigvalsh / eigh (same pattern as get_fidelity): the stubs record their
+# operand and hand back fixed rational spectra (positive, well above eps; mixed signs for the trace distance) and a fully
+# symbolic eigenvector matrix. Proved: which operand reaches the eigen-routine, and that the result is the stated function of the reported spectrum.
+_ER = [sp.Rational(1, 10), sp.Rational(1, 5), sp.Rational(3, 10), sp.Rational(2, 5)]     # spectrum reported for rho (all well above eps: how the clamp treats zero eigenvalues is left to the bounded tier)
+_ES = [sp.Rational(1, 12), sp.Rational(1, 4), sp.Rational(1, 3), sp.Rational(1, 3)]      # spectrum reported for sigma
+_ED = [sp.Rational(-1, 3), sp.Rational(-1, 12), sp.Rational(1, 6), sp.Rational(1, 4)]   # spectrum reported for rho - sigma
+
+
+def _herm(name, d):
+    a = np.empty((d, d), dtype=object)
+    for i in range(d):
+        a[i, i] = sp.Symbol(f'{name}{i}_{i}r', real=True) + sp.I * 0
+        for j in range(i + 1, d):
+            x = sp.Symbol(f'{name}{i}_{j}r', real=True); y = sp.Symbol(f'{name}{i}_{j}i', real=True)
+            a[i, j] = x + sp.I * y; a[j, i] = x - sp.I * y
+    return SymArray(a, np.complex128, ALG)
+
+
+def _ent_call(I):
+    rho, sigma, t = I['rho'], I['sigma'], I['t']
+    if not isinstance(rho, SymArray):
+        return dict(sym=False, vn=_ut.get_von_neumann_entropy(rho), vn_batch=_ut.get_von_neumann_entropy(np.stack([rho, sigma])), td=_ut.get_trace_distance(rho, sigma),
+                    re=_ut.get_relative_entropy(rho, sigma), re_t=_ut.get_relative_entropy(rho, sigma, tr_rho_log_rho=t))
+    d = SS.arr(rho).shape[0]
+    calls = []
+    shim_np = _ut.np; real_linalg = shim_np.linalg
+
+    def eigvalsh(x):
+        calls.append(('eigvalsh', x))
+        xs = SS.arr(x)
+        e = np.empty(xs.shape[:-1], dtype=object)
+        e[...] = np.array(CUR[0][:d], dtype=object)
+        return SymArray(e, np.float64, ALG)
+
+    def eigh(x):
+        calls.append(('eigh', x))
+        e = np.empty(d, dtype=object); e[:] = _ES[:d]
+        return SymArray(e, np.float64, ALG), I['V']
+
+    class L(_types.ModuleType):
+        def __getattr__(s_, k): return getattr(real_linalg, k)
+    Lm = L('lin'); Lm.eigh = eigh; Lm.eigvalsh = eigvalsh
+    shim_np.__dict__['linalg'] = Lm
+    CUR = [_ER]
+    out = dict(sym=True)
+    try:
+        out['vn'] = _ut.get_von_neumann_entropy(rho); out['vn_calls'] = list(calls); calls.clear()
+        out['vn_batch'] = _ut.get_von_neumann_entropy(np.stack([rho, sigma])); out['vnb_calls'] = list(calls); calls.clear()
+        CUR[0] = _ED
+        out['td'] = _ut.get_trace_distance(rho, sigma); out['td_calls'] = list(calls); calls.clear()
+        CUR[0] = _ER
+        out['re'] = _ut.get_relative_entropy(rho, sigma); out['re_calls'] = list(calls); calls.clear()
+        out['re_t'] = _ut.get_relative_entropy(rho, sigma, tr_rho_log_rho=t); out['ret_calls'] = list(calls); calls.clear()
+    finally:
+        shim_np.__dict__['linalg'] = real_linalg
+    return out
+
+
+def _ent_post(I, r):
+    rho, sigma = SS.arr(I['rho']), SS.arr(I['sigma']); d = rho.shape[0]
+    sc = lambda v: v if isinstance(v, sp.Basic) or not hasattr(v, 'ravel') else SS.arr(v).ravel()[0]
+    if not r['sym']:
+        clamp = lambda w: np.maximum(w, np.finfo(float).eps)
+        h = lambda m: float(-(clamp(np.linalg.eigvalsh(m)) * np.log(clamp(np.linalg.eigvalsh(m)))).sum())
+        ws, vs = np.linalg.eigh(sigma); ls = (vs * np.log(clamp(ws))) @ vs.conj().T
+        cross = -np.trace(rho @ ls).real
+        return [('von_neumann_entropy_is_minus_sum_xlogx_of_the_reported_spectrum', sc(r['vn']), h(rho)), ('batched_entropy', SS.arr(r['vn_batch']), np.array([h(rho), h(sigma)])),
+                ('trace_distance_is_half_sum_abs_spectrum', sc(r['td']), np.abs(np.linalg.eigvalsh(rho - sigma)).sum() / 2),
+                ('relative_entropy', sc(r['re']), cross - h(rho)), ('relative_entropy_with_given_tr_rho_log_rho', sc(r['re_t']), cross + I['t'])]
+    eps = sp.Rational(2) ** -52
+    cl_ = lambda w: [max(eps, x) for x in w[:d]]
+    xlogx = lambda w: sum(x * sp.log(x) for x in cl_(w))
+    V = SS.arr(I['V'])
+    ls = np.empty((d, d), dtype=object)
+    lw = [sp.log(x) for x in cl_(_ES)]
+    for i in range(d):
+        for j in range(d):
+            ls[i, j] = sum(V[i, k] * lw[k] * sp.conjugate(V[j, k]) for k in range(d))
+    cross = -sp.re(sp.expand(sum(sp.conjugate(rho[i, j]) * ls[i, j] for i in range(d) for j in range(d))))
+    kinds = lambda c: sorted(k for k, _ in c)
+    arg = lambda c, i: SS.arr(c[i][1])
+    byk = lambda c, k: SS.arr([a for kk, a in c if kk == k][0]) if any(kk == k for kk, _ in c) else None
+
+    def pm(x, ref):
+        # |eigenvalues| of rho - sigma and of sigma - rho (or of the transposed / conjugated difference) are the same: any of them may be handed over
+        for cand in (ref, -ref, ref.T, -ref.T):
+            if x is not None and x.shape == cand.shape and all(sp.expand(a - b) == 0 for a, b in zip(x.ravel(), cand.ravel())):
+                return cand
+        return ref
+    return [('von_neumann_entropy_is_minus_sum_xlogx_of_the_reported_spectrum', sc(r['vn']), -xlogx(_ER)),
+            ('von_neumann_entropy_one_eigvalsh_call_on_rho', [np.array([len(r['vn_calls'])]), arg(r['vn_calls'], 0).reshape(d, d)], [np.array([1]), rho]),
+            ('batched_entropy_hands_the_whole_batch_and_returns_one_value_per_matrix', [arg(r['vnb_calls'], 0).reshape(2, d, d), SS.arr(r['vn_batch'])], [np.stack([rho, sigma]), np.array([-xlogx(_ER)] * 2, dtype=object)]),
+            ('trace_distance_eigvalsh_receives_rho_minus_sigma_up_to_sign', [np.array([len(r['td_calls'])]), arg(r['td_calls'], 0)], [np.array([1]), pm(arg(r['td_calls'], 0), rho - sigma)]),
+            ('trace_distance_is_half_sum_abs_spectrum', sc(r['td']), sum(abs(x) for x in _ED[:d]) / 2),
+            ('relative_entropy_eigh_receives_sigma_and_eigvalsh_receives_rho', [np.array([1 if kinds(r['re_calls']) == ['eigh', 'eigvalsh'] else 0]), byk(r['re_calls'], 'eigh'), byk(r['re_calls'], 'eigvalsh')], [np.array([1]), sigma, rho]),
+            ('relative_entropy_is_minus_tr_rho_log_sigma_plus_sum_xlogx', sc(r['re']), sp.expand(cross + xlogx(_ER))),
+            ('relative_entropy_with_given_tr_rho_log_rho_skips_the_second_eigenproblem', [np.array([1 if kinds(r['ret_calls']) == ['eigh'] else 0]), np.array([sc(r['re_t'])], dtype=object)], [np.array([1]), np.array([sp.expand(cross + I['t'])], dtype=object)])]
+
+
+def _ent_sample(rng, d):
+    def dm():
+        x = _rc(rng, d, d); m = x @ x.conj().T
+        return m / np.trace(m).real
+    return dict(rho=dm(), sigma=dm(), V=None, t=float(rng.normal()))
+
+
+ENTROPY = Id('entropies.numpy_branch', ['numqi.utils:get_von_neumann_entropy', 'numqi.utils:get_trace_distance', 'numqi.utils:get_relative_entropy'],
+             inputs=lambda d: dict(rho=_herm('p', d), sigma=_herm('q', d), V=alg.sym_complex('v', (d, d))[0], t=sp.Symbol('t_rlr', real=True)),
+             call=_ent_call, post=_ent_post, sample=_ent_sample, label=lambda d: f'd={d}', modules=[_ut])
+ENTROPY.comparable = lambda r: []
+
+CONTRACTS = {c.name: c for c in [EQUIV, CONV, BLOCH, NOISE, TOKRAUS, FID, ENTROPY]}
 
 
 def _norm(x):
@@ -366,7 +477,7 @@ def _norm(x):
 def job_identity(tier, rng, cname, shapes):
     out = []
     for sh in shapes:
-        out += verify_identity(CONTRACTS[cname], _norm(sh) if not isinstance(sh, str) else sh, tier, rng, crosscheck=0 if (cname.endswith('plumbing') or cname.startswith('get_fidelity')) else 1)
+        out += verify_identity(CONTRACTS[cname], _norm(sh) if not isinstance(sh, str) else sh, tier, rng, crosscheck=0 if (cname.endswith('plumbing') or cname.startswith('get_fidelity') or cname.startswith('entropies')) else 1)
     return out
 
 
@@ -479,6 +590,7 @@ def jobs(tier):
         J.append(('job_identity', dict(cname='choi_op_to_kraus_op.plumbing', shapes=[s_])))
     for d_ in (2, 3) + ((4,) if tier != 'quick' else ()):
         J.append(('job_identity', dict(cname='get_fidelity.numpy_branch', shapes=[d_])))
+        J.append(('job_identity', dict(cname='entropies.numpy_branch', shapes=[d_])))
     for fn in ['hf_dephasing_kraus_op', 'hf_depolarizing_kraus_op', 'hf_amplitude_damping_kraus_op']:
         J.append(('job_identity', dict(cname='noise_channels', shapes=[fn])))
     for din in range(1, 6):
